@@ -6,6 +6,7 @@
 //	1                 the linked system-call / native-method tables vs the regenerated Lean tables
 //	2 .. 2+NP-1       random manifests: Permission.IsAllowed / Manifest.CanCall vs the model (+ JSON and
 //	                  stack-item round trips of the permission)
+//	then NM cases     random whole manifests (manifest.go): IsValid, stack-item round trip, CanCall on concrete ids
 //	then              chain cases (sweep.go / chain.go): effect sweep, call chains, permission pairs
 package main
 
@@ -339,6 +340,7 @@ func main() {
 	if f.Want(k) {
 		o.Case(k)
 		permCorpus(o, k)
+		manifestCorpus(o, k)
 	}
 	k++
 	if f.Want(k) {
@@ -353,6 +355,14 @@ func main() {
 		}
 		o.Case(k)
 		permRandom(o, k, prng.ForCase(f.Seed, k))
+	}
+	nm := f.N(2500, 150000)
+	for i := 0; i < nm; i, k = i+1, k+1 {
+		if !f.Want(k) {
+			continue
+		}
+		o.Case(k)
+		manifestCase(o, k, prng.ForCase(f.Seed, k))
 	}
 	chainCases(f, o, k)
 }
